@@ -5,7 +5,7 @@ class C23(Prop):
     pid = "C23"
     check_mod = "C23"
     drivers = [dict(pkg="internal/stream", test="TestVerifC23")]
-    n_quick = 400
+    n_quick = 340
     n_thorough = 40000
     shard = 40
     ready = True
